@@ -583,6 +583,13 @@ func (m *Machine) binop(op token.Token, x, y Value, t types.Type, xt types.Type)
 			eq = c.Not(eq)
 		}
 		return Sc{eq}
+	case FuncV:
+		yv, _ := y.(FuncV)
+		eq := (xv.fn == nil && !xv.noop) == (yv.fn == nil && !yv.noop)
+		if op == token.NEQ {
+			eq = !eq
+		}
+		return Sc{c.Bool(eq)}
 	case SliceV:
 		// only comparison with nil
 		eq := xv.obj == 0 && y.(SliceV).obj == 0
